@@ -103,6 +103,126 @@ func init() {
 	})
 }
 
+const pkgZZ = "github.com/ory/keto/internal/check/zzverif"
+
+var enginePatterns = []string{
+	"github.com/ory/keto/internal/check", "github.com/ory/keto/internal/check/checkgroup", "github.com/ory/keto/internal/x/graph",
+	pkgNs, pkgAst, "github.com/ory/keto/internal/relationtuple", "github.com/ory/keto/internal/driver/config",
+	"github.com/ory/keto/internal/x", pkgKetoapi, "github.com/ory/keto/internal/persistence", "github.com/ory/keto/x/events",
+}
+
+var engineAssumptions = []string{
+	"reference semantics RefSem: well-founded semantics of the relationship graph computed as a formula over the symbolic rows (alternating fixed point), mode rules as in checkIsAllowed",
+	"A1: rows and queries name only declared relations", "A2: no dependency cycle through a negation reachable from the query",
+	"storage = MemStore (spec of relationtuple.Manager and Traverser); config getters of *config.Config overridden; logger/tracer no-ops",
+	"symmetry: objects and subject ids are interchangeable names",
+}
+
+var engineOutside = []string{"stores with more rows, more than one namespace, rewrite depth > 2", "schedules beyond the deterministic scheduler (delay bound 0)", "the SQL persister/traverser (the engine runs on MemStore)"}
+
+var engineOverrides = map[string]string{
+	"(*github.com/ory/keto/internal/driver/config.Config).MaxReadDepth":                   "verifCfgMaxReadDepth",
+	"(*github.com/ory/keto/internal/driver/config.Config).MaxReadWidth":                   "verifCfgMaxReadWidth",
+	"(*github.com/ory/keto/internal/driver/config.Config).StrictMode":                     "verifCfgStrictMode",
+	"(*github.com/ory/keto/internal/driver/config.Config).BatchCheckParallelizationLimit": "verifCfgBatchLimit",
+	"(*github.com/ory/keto/internal/driver/config.Config).NamespaceManager":               "verifCfgNamespaceManager",
+	"github.com/ory/keto/internal/check/checkgroup.UnknownMemberFunc":                     "verifUnknownMemberFunc",
+	"github.com/ory/keto/internal/x/graph.CheckAndAddVisited":                             "verifCheckAndAddVisited",
+}
+
+func engineRun(name, harness string, params map[string]int64) Run {
+	for k, v := range map[string]int64{"shapes": 0, "modes": 0, "setSubjects": 0, "alts": 2, "G": 12, "W": 64} {
+		if _, ok := params[k]; !ok {
+			params[k] = v
+		}
+	}
+	return Run{Name: name, Pkg: pkgZZ, Harness: harness, Params: params, Overrides: engineOverrides}
+}
+
+func init() {
+	register(&Property{
+		ID:          "C01",
+		Patterns:    enginePatterns,
+		HarnessDirs: []string{"internal/check/zzverif"},
+		ReplayTags:  "sqlite",
+		Runs: func(tier string) []Run {
+			mk := func(name string, fam, k, objs, shapes, modes int64) Run {
+				r := engineRun(name, "HarnessC01", map[string]int64{"family": fam, "K": k, "objs": objs, "G": 12, "W": 64, "alts": 2, "setSubjects": 0, "shapes": shapes, "modes": modes})
+				r.Reach = []string{"c01.checked"}
+				return r
+			}
+			if tier == "thorough" {
+				return []Run{
+					mk("plain-and-schemaless", 0, 4, 2, 0, 0),
+					mk("operator-pairs", 1, 3, 2, 0, 0),
+					mk("and-not-below-expansion", 2, 3, 3, 0, 0),
+				}
+			}
+			return []Run{
+				mk("plain-and-schemaless", 0, 3, 2, 0, 0),
+				mk("operator-set", 4, 2, 2, 0, 0),
+				mk("and-not-below-expansion", 2, 3, 2, 2, 1),
+			}
+		},
+		Bounds: func(tier string) map[string]interface{} {
+			return map[string]interface{}{
+				"store":          "K symbolic rows (present flag, object, relation, subject id or subject set all symbolic over the pools); K = 2..3 (quick), 3..4 (thorough) per configuration family",
+				"pools":          "one namespace, 2-3 objects, the declared relations and permissions of the configuration, 2 subject ids",
+				"configurations": "families of concrete rewrite ASTs: plain/schemaless, every operator pair over includes / traverse / permits, && and ! below a subject-set expansion; default and strict mode",
+				"query":          "object o0 and subject u0 without loss of generality (names are only compared for equality), every declared relation",
+				"schedules":      "the engine's goroutines under the deterministic run-to-block scheduler, every resolution of ready select cases (delay bound 0)",
+			}
+		},
+		Outside: []string{"stores with more rows, more than one namespace, rewrite depth > 2", "schedules beyond the deterministic scheduler (delay bound 0)", "data with a dependency cycle through a negation (assumption A2)", "the SQL persister/traverser (the engine runs on MemStore, the in-memory specification of storage)"},
+		Assumptions: []string{
+			"reference semantics RefSem: well-founded semantics of the relationship graph computed as a formula over the symbolic rows (alternating fixed point), mode rules as in checkIsAllowed",
+			"A1: rows and queries name only declared relations", "A2: no dependency cycle through a negation reachable from the query",
+			"storage = MemStore (spec of relationtuple.Manager and Traverser); config getters of *config.Config overridden; logger/tracer no-ops",
+			"symmetry: objects and subject ids are interchangeable names",
+		},
+	})
+}
+
+func init() {
+	register(&Property{
+		ID:          "C02",
+		Patterns:    enginePatterns,
+		HarnessDirs: []string{"internal/check/zzverif"},
+		ReplayTags:  "sqlite",
+		Assumptions: engineAssumptions,
+		Outside:     append([]string{"global depths and widths above Gmax/Wmax"}, engineOutside...),
+		Bounds: func(tier string) map[string]interface{} {
+			return map[string]interface{}{"rows": pick(tier, 2, 3), "objects": 2, "request depth": "fully symbolic int (64 bit)", "global depth": "1.." + itoa(pick(tier, 3, 4)), "width": "1.." + itoa(pick(tier, 2, 3)), "configurations": "operator set (quick) / every operator pair (thorough), both modes"}
+		},
+		Runs: func(tier string) []Run {
+			k := pick(tier, 2, 3)
+			fam := pick(tier, 4, 1)
+			a := engineRun("clamp", "HarnessC02Clamp", map[string]int64{"family": fam, "K": k, "objs": 2, "G": 3, "W": 64, "alts": 2, "setSubjects": 0, "Gmax": pick(tier, 2, 4)})
+			a.Reach = []string{"c02.clamp"}
+			b := engineRun("fail-closed", "HarnessC02FailClosed", map[string]int64{"family": fam, "K": k, "objs": 2, "G": 3, "W": 64, "alts": 2, "setSubjects": 0, "Gmax": pick(tier, 3, 4), "Wmax": pick(tier, 2, 3), "symbolicDepth": 0})
+			b.Reach = []string{"c02.checked"}
+			return []Run{a, b}
+		},
+	})
+	register(&Property{
+		ID:          "C03",
+		Patterns:    enginePatterns,
+		HarnessDirs: []string{"internal/check/zzverif"},
+		ReplayTags:  "sqlite",
+		Assumptions: engineAssumptions,
+		Outside:     append([]string{"batch handlers' mapping of Membership to 'allowed' (covered with the transports, C08)"}, engineOutside...),
+		Bounds: func(tier string) map[string]interface{} {
+			return map[string]interface{}{"rows": pick(tier, 1, 2), "objects": 2, "failing call": "symbolic k over every storage call position of the fault-free run (+2), transient or persistent (symbolic flag)", "configurations": "operator set (quick) / every operator pair (thorough), both modes"}
+		},
+		NoReplay:    map[string]string{"HarnessC03": "the fault is injected into the storage model; the real persister has no fault hook (the counterexample is reported with the symbolic trace)"},
+		Runs: func(tier string) []Run {
+			a := engineRun("fault-at-k", "HarnessC03", map[string]int64{"family": pick(tier, 4, 1), "K": pick(tier, 1, 2), "objs": 2, "G": 12, "W": 64, "alts": 2, "setSubjects": 0})
+			a.Reach = []string{"c03.fault-injected"}
+			return []Run{a}
+		},
+	})
+}
+
 func itoa(n int64) string {
 	s := ""
 	if n == 0 {
